@@ -243,6 +243,9 @@ def from_shapes():
         ("comma2", lambda n: ((ir.FromGroup(A), ir.FromGroup(B)), "ta", ())),
         ("comma3", lambda n: ((ir.FromGroup(A), ir.FromGroup(ir.T(None, "tb", "y", False)), ir.FromGroup(C)), "ta", ())),
         ("chained_joins", lambda n: ((ir.FromGroup(A, (ir.Join("JOIN", B, on("ta", "tb")), ir.Join("LEFT JOIN", C, on("tb", "s1.tc")))),), "ta", ())),
+        ("four_joins", lambda n: ((ir.FromGroup(A, (ir.Join("JOIN", B, on("ta", "tb")), ir.Join("LEFT JOIN", C, on("tb", "s1.tc")),
+                                                   ir.Join("INNER JOIN", ir.T(None, "tj3", "j3", True), on("ta", "j3")),
+                                                   ir.Join("RIGHT JOIN", ir.T("s2", "tj4"), ("using", ("k",))))),), "ta", ())),
         ("derived", lambda n: ((ir.FromGroup(ir.Derived(_sub_nested(7) if n else _sub(7), "d1", True)),), "d1", ())),
         ("derived_in_join", lambda n: ((ir.FromGroup(A, (ir.Join("JOIN", ir.Derived(_sub_nested(8) if n else _sub(8), "d2", False), on("ta", "d2")),)),), "ta", ())),
         ("cte_ref", lambda n: ((ir.FromGroup(ir.CteRef("q1")),), "q1", (("q1", _sub_nested(9) if n else _sub(9)),))),
